@@ -80,6 +80,7 @@ def detect(name, props, scratch=None, tier='quick', seed=0):
     if scratch:
         env['VERIF_REPO'] = scratch
     env['VERIF_SEED'] = str(seed)
+    env['VERIF_EVIDENCE_DIR'] = '/tmp/verif_seed_evidence'      # never overwrite the real evidence with runs on a mutated tree
     rc, out = sh(['git', '-C', tree, 'status', '--porcelain', '--', 'isotp'])
     if out.strip():
         raise SystemExit('tree %s is not clean: %s' % (tree, out))
